@@ -147,6 +147,12 @@ def unit_items(ctx, u):
                 e = ["br", [e]]
             exp.append(["flat", [["ax", ms], e]])
         return [["ell", [tpl], len(exp), exp, False]]
+    if u[0] == "fam2b":
+        # "[s d]...": a bracket holding two axes under one ellipsis
+        s_, d_ = u[1], u[2]
+        tpl = ["br", [["ax", s_], ["ax", d_]]]
+        exp = [["br", [["ax", ms], ["ax", md]]] for ms, md in zip(ctx.fams[s_], ctx.fams[d_])]
+        return [["ell", [tpl], len(exp), exp, False]]
     raise ValueError(u)
 
 
@@ -567,6 +573,9 @@ def gen_reduce(ctx, op):
         r = ctx.draw(st.integers(0, 9))
         if r == 0:
             red.append(("fam", ctx.new_family(), True, "plain"))
+        elif r == 2 and ctx.b(0.5) and not ctx.simple:
+            kk = ctx.draw(st.sampled_from([1, 2, 2]))
+            red.append(("fam2b", ctx.new_family(k=kk), ctx.new_family(k=kk), True))
         elif r == 1:
             red.append(("leaf", ctx.new_num(ctx.draw(st.sampled_from(LENS))), True))
         else:
@@ -579,6 +588,8 @@ def gen_reduce(ctx, op):
 
 
 def _is_br(u):
+    if u[0] == "fam2b":
+        return True
     return u[2] if u[0] in ("leaf", "fam") else False
 
 
